@@ -17,7 +17,9 @@ FewNames == {<<"L">>, <<"L", "-", "D">>, <<"D", "-", "D", "-", "D">>, <<"L", "-"
 Vers   == SeqsOver(VerCh, 1, 1) \cup {<<"D", ".", "D">>, <<".", "D">>, <<"D", "~", "L">>, <<"D", "^", "D">>, <<"D", "D", "D">>}
 Epochs == {<<>>, <<"D">>, <<"D", "D">>}                       \* <<>> = no epoch given
 Arches == {"a1", "a2", "a3"}                                   \* rotated over the library's table by the harness
-Dirs   == {<<>>, <<"L", "/">>, <<"L", "-", "D", "/", "L", ".", "L", "/">>, <<"/", "L", "/">>, <<"L", ":", "/">>, <<"L", " ", "L", "/">>}
+Dirs   == {<<>>, <<"L", "/">>, <<"L", "-", "D", "/", "L", ".", "L", "/">>, <<"/", "L", "/">>, <<"L", ":", "/">>, <<"L", " ", "L", "/">>,
+            \* directories that begin like an epoch ("10:/pub/", "7:updates/"): the epoch is looked for in the file name only
+            <<"D", "D", ":", "/", "L", "/">>, <<"D", ":", "L", "/">>}
 Rpm    == <<".", "r", "p", "m">>
 
 Format(p) == p.dir \o p.name \o <<"-">> \o (IF p.epoch = <<>> THEN <<>> ELSE p.epoch \o <<":">>)
